@@ -1,6 +1,6 @@
 """Hot/cold shard protocol rules for histograms (C02 and C03)."""
 from pvrules.mir import is_call, peel, show, strip_generics, subterms
-from pvrules.rules import SELF_FIELD, atomic_prim, bypass_guards, is_zero_skip_filter, const_int, count_range, elem_of, ord_ge, ordering_of, skips_only_zero
+from pvrules.rules import SELF_FIELD, atomic_prim, bypass_guards, const_eval, is_zero_skip_filter, const_int, count_range, elem_of, ord_ge, ordering_of, skips_only_zero
 from . import hist_common as hcm
 from . import vec_common as vc
 
@@ -247,6 +247,40 @@ def rule_R2_index_helpers(ctx, f):
         ctx.ob(rid, "HistogramCore|two-shards", fs.get("shards", "").replace(" ", "") == "[prometheus::histogram::Shard;2]", "a histogram must have exactly two shards (found %s)" % fs.get("shards"))
 
 
+def _top_bit_selects_variant(b, f, TOP):
+    """`if n & TOP == 0 { First } else { Second }` (any spelling of the test): the zero edge assigns variant 0, the other edge variant 1."""
+    adt = f.adt(H + "ShardIndex")
+    names = [v["name"] for v in adt["variants"]] if adt else []
+    if len(names) != 2:
+        return False
+    for bi in b.reachable_blocks():
+        zero = nonzero = None
+        be = b.bool_edges(bi)
+        si = b.switch_info(bi)
+
+        def masked(t):
+            t = peel(t)
+            return isinstance(t, tuple) and t and t[0] == "binop" and t[1] == "BitAnd" and ((peel(t[2]) == P(1) and const_eval(t[3], f) == TOP) or (peel(t[3]) == P(1) and const_eval(t[2], f) == TOP))
+        if be and be[0][0] == "binop" and be[0][1] in ("Eq", "Ne") and ((masked(be[0][2]) and const_eval(be[0][3], f) == 0) or (masked(be[0][3]) and const_eval(be[0][2], f) == 0)):
+            zero, nonzero = (be[1], be[2]) if be[0][1] == "Eq" else (be[2], be[1])
+        elif si and masked(si[0]):
+            z = [t for v, t in si[1] if v == 0]
+            if len(z) == 1:
+                zero, nonzero = z[0], si[2]
+        if zero is None:
+            continue
+
+        def assigned(edge, other):
+            out = set()
+            for x in b.reach(edge, avoid_blocks=[bi]) - b.reach(other, avoid_blocks=[bi]):
+                for st in b.blocks[x]["stmts"]:
+                    if st["k"] == "assign" and st["rv"].get("k") == "agg" and st["rv"].get("agg") == "adt" and st["rv"]["adt"].endswith("ShardIndex"):
+                        out.add(st["rv"]["variant"])
+            return out
+        return assigned(zero, nonzero) == {names[0]} and assigned(nonzero, zero) == {names[1]}
+    return False
+
+
 def rule_R4_R5(ctx, f):
     ctx.rule("R4", "collector exclusion: ShardAndCount::flip is called only from proto; swap / compare-exchange on shard cells only from proto; collect_lock is locked only in proto and sample_sum")
     ctx.rule("R5", "bit-layout agreement: flip adds 1<<63 with the caller's ordering; inc_by adds the caller's delta with the caller's ordering; inc is inc_by(1, ordering); get loads; "
@@ -274,9 +308,10 @@ def rule_R4_R5(ctx, f):
     if b:
         ctx.saw(b)
         fa = [c for c in b.calls() if atomic_prim(c)]
-        ok = len(fa) == 1 and atomic_prim(fa[0]) == "fetch_add" and peel(fa[0].args[0]) == inner and fa[0].args[2] == P(2) and count_range(b, [fa[0].bb]) == (1, 1)
+        # toggling the top bit: a wrapping add of 2^63 and an xor with 2^63 are the same function on u64
+        ok = len(fa) == 1 and atomic_prim(fa[0]) in ("fetch_add", "fetch_xor") and peel(fa[0].args[0]) == inner and fa[0].args[2] == P(2) and count_range(b, [fa[0].bb]) == (1, 1)
         v = fa[0].args[1] if fa else None
-        okv = v is not None and v[0] == "binop" and v[1] == "Shl" and const_int(v[2]) == 1 and const_int(v[3]) == 63
+        okv = v is not None and const_eval(v, f) == 1 << 63
         sp = b.calls_to("split_shard_index_and_count")
         okr = len(sp) == 1 and fa and sp[0].args[0] == fa[0].result_term() and b.term_local(0) == sp[0].result_term()
         ctx.ob("R5", "flip|adds-top-bit", ok and okv and okr, "flip must be one fetch_add(1 << 63, ordering) on the cell, returning the split previous value", site=b.raw["span"]["at"])
@@ -310,10 +345,13 @@ def rule_R4_R5(ctx, f):
         if ok:
             i, c = r[3]
             i = peel(i, transparent=["Into::into", "From::from"])
+            TOP = 1 << 63
             oki = i[0] == "binop" and i[1] == "Shr" and i[2] == P(1) and const_int(i[3]) == 63
+            if not oki:
+                oki = _top_bit_selects_variant(b, f, TOP)
             okc = c[0] == "binop" and c[1] == "BitAnd" and P(1) in (c[2], c[3])
             m = c[3] if c[2] == P(1) else c[2]
-            okm = m[0] == "field" and m[1][0] == "binop" and m[1][1] in ("SubWithOverflow", "Sub") and m[1][2][0] == "binop" and m[1][2][1] == "Shl" and const_int(m[1][2][2]) == 1 and const_int(m[1][2][3]) == 63 and const_int(m[1][3]) == 1
+            okm = const_eval(m, f) == TOP - 1
             ok = oki and okc and okm
         ctx.ob("R5", "split|layout", ok, "split must return (n >> 63, n & ((1 << 63) - 1)) (found %s)" % show(r), site=b.raw["span"]["at"])
 
@@ -403,9 +441,18 @@ def rule_C03(ctx, f):
             ok3 = False
             for bi in b.reach(c.bb):
                 be = b.bool_edges(bi)
+                si_ = b.switch_info(bi)
+                err_edge = ok_edge = None
                 if be and is_call(be[0], ["Result::is_err", "Result::is_ok"]) and peel(be[0][2][0], transparent=[]) == c.result_term():
                     err_edge = be[1] if is_call(be[0], "Result::is_err") else be[2]
                     ok_edge = be[2] if is_call(be[0], "Result::is_err") else be[1]
+                elif si_ and si_[0][0] == "discr" and peel(si_[0][1], transparent=[]) == c.result_term():
+                    # `match cas { Ok(_) => break, Err(_) => continue }`
+                    oks = [t for v, t in si_[1] if v == 0]
+                    ers = [t for v, t in si_[1] if v == 1] or ([si_[2]] if b.blocks[si_[2]]["term"]["k"] != "unreachable" else [])
+                    if len(oks) == 1 and len(ers) == 1:
+                        ok_edge, err_edge = oks[0], ers[0]
+                if err_edge is not None:
                     back = c.bb in b.reach(err_edge, avoid_blocks=[ok_edge])
                     body = b.reach(err_edge, avoid_blocks=[c.bb])
                     side = [e for e in evs if e["bb"] in body and e["bb"] != c.bb and c.bb in b.reach(e["bb"]) and e["bb"] not in b.reach(ok_edge)]
